@@ -167,6 +167,7 @@ def generate(rng, tier):
     tt = t if t > 0 else 1.0
     regime = rng.choice(["dark", "mid", "fwc", "adc", "adc", "beyond", "beyond"])
     img = {"shape": [m, n], "seed": rng.getrandbits(32), "regime": regime, "exact": exact,
+           "dtype": rng.choice(["f64", "f64", "f64", "f32", "i64"]) if exact or rng.random() < 0.5 else "f64",
            "fwc_level": fwc / tt, "adc_level": max(adc_e - bias, 0.0) / tt,
            "beyond": 10 ** rng.uniform(1, 6)}
     ops = [{"op": "expose"}]
@@ -224,6 +225,11 @@ def build_img(np, spec):
     img = np.maximum(img, 0.0)
     if spec["exact"]:
         img = np.rint(img)
+    dt = spec.get("dtype", "f64")
+    if dt == "i64":
+        return np.minimum(np.rint(img), 9e15).astype(np.int64)
+    if dt == "f32":
+        return img.astype(np.float32)
     return img.astype(np.float64)
 
 
@@ -302,7 +308,7 @@ def execute(plan):
 
     # closed-form noise-free signal (pre-quantisation)
     def ideal(image):
-        e = image * d["t"]
+        e = np.asarray(image).astype(np.float64) * d["t"]
         dk = d["dark"] * d["t"]
         if S.dcnu is not None:
             dk = dk * S.dcnu
@@ -363,8 +369,9 @@ def execute(plan):
             c = np.broadcast_to(c, dn.shape)
             dnf = dn.astype(np.float64)
             err = np.abs(dnf - c)
-            tol = 1.0 + 1e-9 * np.maximum(1.0, np.abs(c))
-            if plan["img"]["exact"]:
+            f32 = image.dtype == np.float32
+            tol = 1.0 + (4e-7 if f32 else 1e-9) * np.maximum(1.0, np.abs(c))
+            if plan["img"]["exact"] and not (f32 and float(np.abs(image).max()) >= 2 ** 24):
                 # every operation is exact in binary floating point: floor or round, nothing else
                 okx = (dnf == np.floor(c)) | (dnf == np.rint(c))
                 if not bool(np.all(okx)):
@@ -374,7 +381,7 @@ def execute(plan):
                 j = int(np.argmax(err))
                 viol("dn-exact", stage, got=float(dnf.ravel()[j]), want=float(c.ravel()[j]))
             raw = np.broadcast_to(ideal(image), dn.shape)
-            sat = raw >= S.cap + 1
+            sat = raw >= (S.cap + 1) * (1 + (1e-6 if f32 else 0.0))
             if bool(np.any(sat & (dnf != S.cap))):
                 j = int(np.argmax(sat & (dnf != S.cap)))
                 viol("dn-saturated", stage, got=float(dnf.ravel()[j]), want=float(S.cap))
@@ -478,7 +485,11 @@ def execute(plan):
                 inc = u * base * 1e4
             if plan["img"]["exact"]:
                 inc = np.rint(inc)
-            img2 = img + np.maximum(inc, 0.0)
+            img2 = (img.astype(np.float64) + np.maximum(inc, 0.0))
+            if img.dtype == np.int64:
+                img2 = np.minimum(np.rint(img2), 9e15).astype(np.int64)
+            elif img.dtype == np.float32:
+                img2 = np.maximum(img2.astype(np.float32), img)      # rounding must not make it dimmer
             try:
                 dn2 = np.asarray(expose(img2, True))
             except Exception as e:
@@ -506,6 +517,14 @@ def execute(plan):
             base = frame_f if src == "float" else (dn1 if src == "dn" else (dn1 > np.median(dn1)))
             x = base if (op["stack"] or base.ndim == 2) else base[0]
             bump(probes, f"bin_src_{src}")
+            if op["seed"] % 5 == 0:
+                x = np.asfortranarray(x)                      # another memory layout, same samples
+                bump(probes, "bin_fortran_input")
+            elif op["seed"] % 5 == 1 and x.ndim == 2:
+                big = np.zeros((x.shape[0] * 2, x.shape[1] * 2), dtype=x.dtype)
+                big[::2, ::2] = x
+                x = big[::2, ::2]
+                bump(probes, "bin_strided_input")
             g = np.random.Generator(np.random.PCG64(op["seed"]))
             fac = _factors(g, x.shape, op["scalar"])
             _bin_tile(np, D, x, fac, op["mode"], g, viol, bump, probes)
@@ -524,7 +543,11 @@ def execute(plan):
                 continue
             if op["as_int"]:
                 mos = np.minimum(mos, 65535).astype(np.uint16)
-            _bayer(np, B, mos.copy(), op["cfa"], viol, bump, probes)
+            mos = mos.copy()
+            if (mos.shape[0] + mos.shape[1]) % 3 == 0:
+                mos = np.asfortranarray(mos)
+                bump(probes, "bayer_fortran_input")
+            _bayer(np, B, mos, op["cfa"], viol, bump, probes)
             ev["out"] = "ok"
         else:
             raise RuntimeError(f"unknown op {k}")
